@@ -506,3 +506,178 @@ Proof.
   intros fetch p c i s es serial Hall Hin. destruct (cert_check_crl fetch p c i s es serial) eqn:E; [|reflexivity].
   apply (cert_check_crl_ok_iff _ _ _ _ _ _ _ Hall) in E. destruct E as (_ & _ & _ & _ & _ & Hn). contradiction.
 Qed.
+
+(* ================================================================== wave 5: names, certificate lists, x509_crl_check *)
+Lemma len_enc_le5 : forall n, len (len_enc n) <= 5.
+Proof.
+  intros n. unfold len_enc. repeat match goal with |- context [if ?b then _ else _] => destruct b end; unfold len; cbn; lia.
+Qed.
+Lemma tlv_len_le : forall t c, len (tlv t c) <= len c + 6.
+Proof. intros. rewrite tlv_len. unfold tlv_size. pose proof (len_enc_le5 (len c)). lia. Qed.
+
+Lemma attr_type_of_oid_oid : forall t, attr_type_of_oid (attr_oid t) = Some t.
+Proof. destruct t; vm_compute; reflexivity. Qed.
+
+Lemma attr_oid_len : forall t, len (attr_oid t) <= 10.
+Proof. destruct t; vm_compute; discriminate. Qed.
+
+Lemma directory_string_tag : forall tag v, directory_string_ok tag v = true -> tag_in tag [12; 19; 20; 28; 30; 22] = true.
+Proof.
+  intros tag v. unfold directory_string_ok. destruct v; [discriminate|].
+  destruct (tag =? 12) eqn:E1; [apply N.eqb_eq in E1; subst; reflexivity|].
+  destruct (tag =? 19) eqn:E2; [apply N.eqb_eq in E2; subst; reflexivity|].
+  destruct (tag =? 20) eqn:E3; [apply N.eqb_eq in E3; subst; reflexivity|].
+  destruct (tag =? 28) eqn:E4; [apply N.eqb_eq in E4; subst; reflexivity|].
+  cbn [orb]. destruct (tag =? 30) eqn:E5; [apply N.eqb_eq in E5; subst; reflexivity|discriminate].
+Qed.
+
+Lemma attr_ok_facts : forall t tag v, attr_ok (t, tag, v) = true ->
+  tag_in tag [12; 19; 20; 28; 30; 22] = true /\ len v <= 128.
+Proof.
+  intros t tag v H. unfold attr_ok in H. destruct t; try discriminate;
+    rewrite ?andb_true_iff in H; repeat match goal with H : _ /\ _ |- _ => destruct H end;
+    (split; [eapply directory_string_tag; eassumption|]);
+    repeat match goal with H : (_ <=? _) = true |- _ => apply N.leb_le in H | H : (_ =? _) = true |- _ => apply N.eqb_eq in H end; lia.
+Qed.
+
+Lemma rdn_roundtrip : forall t tag v rest, attr_ok (t, tag, v) = true ->
+  exists c, tlv_dec (rdn_enc (t, tag, v) ++ rest) = Some (T_SET, c, rest) /\
+            tlv_dec c = Some (T_SEQ, tlv T_OID (attr_oid t) ++ tlv tag v, []) /\
+            dec_items atv_layout (tlv T_OID (attr_oid t) ++ tlv tag v) = Some ([Some (T_OID, attr_oid t); Some (tag, v)], []).
+Proof.
+  intros t tag v rest H. destruct (attr_ok_facts _ _ _ H) as [Htag Hlen].
+  pose proof (attr_oid_len t) as Ho.
+  pose proof (tlv_len_le T_OID (attr_oid t)) as L1. pose proof (tlv_len_le tag v) as L2.
+  assert (len (tlv T_OID (attr_oid t) ++ tlv tag v) < 2147483648) as Hc by (rewrite len_app; lia).
+  pose proof (tlv_len_le T_SEQ (tlv T_OID (attr_oid t) ++ tlv tag v)) as L3. rewrite len_app in L3.
+  exists (tlv T_SEQ (tlv T_OID (attr_oid t) ++ tlv tag v)). split; [|split].
+  - unfold rdn_enc. apply tlv_round. lia.
+  - rewrite <- (app_nil_r (tlv T_SEQ _)). apply tlv_round. exact Hc.
+  - assert (tlv T_OID (attr_oid t) ++ tlv tag v = enc_items [Some (T_OID, attr_oid t); Some (tag, v)] ++ []) as E
+      by (unfold enc_items; cbn [map concat enc_value]; rewrite !app_nil_r; reflexivity).
+    rewrite E. apply dec_items_round. cbn [wf atv_layout]. repeat split; try reflexivity; try assumption; lia.
+Qed.
+
+Lemma name_dec_step : forall f inp, inp <> [] ->
+  name_dec (S f) inp =
+      match tlv_dec inp with
+      | Some (t, c, rest) =>
+        if t =? T_SET then
+          match tlv_dec c with
+          | Some (t2, c2, []) =>
+            if t2 =? T_SEQ then
+              match dec_items atv_layout c2 with
+              | Some ([Some (_, o); Some (tag, v)], []) =>
+                match attr_type_of_oid o, name_dec f rest with
+                | Some ty, Some l => Some ((ty, tag, v) :: l)
+                | _, _ => None
+                end
+              | _ => None
+              end
+            else None
+          | _ => None
+          end
+        else None
+      | None => None
+      end.
+Proof. intros f [|x xs] H; [contradiction|reflexivity]. Qed.
+
+(* names built by the library's builders parse back to exactly the attributes supplied *)
+Theorem name_roundtrip : forall l der, name_build l = Some der -> name_dec (S (length l)) der = Some l.
+Proof.
+  intros l der H. unfold name_build in H. destruct (forallb attr_ok l) eqn:F; [|discriminate]. inversion H; subst der. clear H.
+  induction l as [|[[t tag] v] r IH]; [reflexivity|].
+  cbn [forallb] in F. apply andb_true_iff in F. destruct F as [Fa Fr].
+  change (name_enc ((t, tag, v) :: r)) with (rdn_enc (t, tag, v) ++ name_enc r).
+  destruct (rdn_roundtrip t tag v (name_enc r) Fa) as (c & H1 & H2 & H3).
+  cbn [length].
+  assert (rdn_enc (t, tag, v) ++ name_enc r <> []) as Hne by (unfold rdn_enc, tlv; discriminate).
+  rewrite (name_dec_step _ _ Hne), H1, N.eqb_refl, H2, N.eqb_refl, H3, attr_type_of_oid_oid.
+  rewrite (IH Fr). reflexivity.
+Qed.
+
+(* every name the builders accept satisfies the per-attribute rules; the empty name is the empty encoding *)
+Theorem name_build_sound : forall l der, name_build l = Some der -> Forall (fun a => attr_ok a = true) l /\ der = name_enc l.
+Proof.
+  intros l der H. unfold name_build in H. destruct (forallb attr_ok l) eqn:F; [|discriminate]. inversion H; subst.
+  split; [apply Forall_forall; apply forallb_forall; exact F|reflexivity].
+Qed.
+
+Lemma attr_oid_inj : forall a b, octets_eq (attr_oid a) (attr_oid b) = true -> a = b.
+Proof. intros [] []; vm_compute; intros H; try reflexivity; discriminate. Qed.
+
+(* x509_name_get_value_by_type: the first attribute of the type *)
+Theorem name_get_value_first : forall l t tag v,
+  name_get_value l t = Some (tag, v) <->
+  exists pre post, l = pre ++ (t, tag, v) :: post /\ Forall (fun a => fst (fst a) <> t) pre.
+Proof.
+  intros l t tag v. split.
+  - induction l as [|[[t' tg] w] r IH]; cbn; intros H; [discriminate|].
+    destruct (octets_eq (attr_oid t') (attr_oid t)) eqn:E.
+    + apply attr_oid_inj in E. subst t'. inversion H; subst. exists [], r. split; [reflexivity|constructor].
+    + apply IH in H. destruct H as (pre & post & -> & Hp). exists ((t', tg, w) :: pre), post. split; [reflexivity|].
+      constructor; [|exact Hp]. cbn. intro; subst. destruct t; vm_compute in E; discriminate.
+  - intros (pre & post & -> & Hp). induction pre as [|[[t' tg] w] pre IH]; cbn.
+    + assert (octets_eq (attr_oid t) (attr_oid t) = true) as E by (destruct t; vm_compute; reflexivity). rewrite E. reflexivity.
+    + inversion Hp as [|? ? Hne Hr]; subst. cbn in Hne.
+      destruct (octets_eq (attr_oid t') (attr_oid t)) eqn:E; [apply attr_oid_inj in E; contradiction|]. apply IH; exact Hr.
+Qed.
+
+(* x509_certs_get_cert_by_index *)
+Theorem certs_by_index_hit : forall A (l : list (option A)) i a,
+  certs_by_index l i = FHit a <-> (nth_error l i = Some (Some a) /\ Forall (fun x => x <> None) (firstn i l)).
+Proof.
+  intros A l. induction l as [|x r IH]; intros i a.
+  - cbn. destruct i; split; try discriminate; intros [H _]; discriminate.
+  - destruct x as [b|]; cbn [certs_by_index].
+    + destruct i as [|j]; cbn [nth_error firstn].
+      * split; [intros H; inversion H; subst; split; [reflexivity|constructor]|intros [H _]; inversion H; reflexivity].
+      * rewrite IH. split; intros [H1 H2]; (split; [exact H1|]).
+        -- constructor; [discriminate|exact H2].
+        -- inversion H2; assumption.
+    + split; [discriminate|]. intros [H1 H2]. destruct i; cbn in *; [discriminate|]. inversion H2 as [|? ? Hx _]. contradiction.
+Qed.
+
+(* x509_crl_check decides over unbounded integers: version v1/v2, thisUpdate <= now < nextUpdate, identifiers agree, and
+   (as coded) no critical extension at all - hence no CRL with deltaCRLIndicator or issuingDistributionPoint *)
+Theorem crl_check_exact : forall agree version this next now exts,
+  crl_check agree version this next now exts = true <->
+  (agree = true /\ (version = 0 \/ version = 1)%Z /\ (this <= now)%Z /\
+   (forall n, next = Some n -> (now < n)%Z) /\
+   Forall (fun e => fst e <> CE_delta_or_idp /\ snd e <> 1%Z) exts).
+Proof.
+  intros. unfold crl_check. rewrite !andb_true_iff, orb_true_iff, !Z.eqb_eq, Z.leb_le, forallb_forall, Forall_forall.
+  split.
+  - intros [[[[Ha Hv] Ht] Hn] He]. repeat split; try assumption.
+    + intros n ->. apply Z.ltb_lt. exact Hn.
+    + specialize (He x H). destruct x as [k c]. cbn in *. destruct k; [discriminate|discriminate|discriminate|discriminate].
+    + specialize (He x H). destruct x as [k c]. cbn in *. destruct k; try discriminate; apply negb_true_iff in He; apply Z.eqb_neq in He; exact He.
+  - intros (Ha & Hv & Ht & Hn & He). repeat split; try assumption.
+    + destruct next as [n|]; [apply Z.ltb_lt; apply Hn; reflexivity|reflexivity].
+    + intros [k c] Hin. destruct (He _ Hin) as [Hk Hc]. cbn in *. destruct k; try contradiction; apply negb_true_iff; apply Z.eqb_neq; exact Hc.
+Qed.
+
+(* ------------------------------------------------------------------ wave 5: GeneralName *)
+(* repaired writer: every GeneralName the builder emits is read back as the same choice and content *)
+Theorem general_name_roundtrip : forall choice d der rest,
+  len d < 2147483648 -> general_name_enc true choice d = Some der ->
+  general_name_dec (der ++ rest) = Some (choice, d, rest).
+Proof.
+  intros choice d der rest Hl H. unfold general_name_enc in H. destruct d as [|x d']; [discriminate|].
+  destruct (8 <? choice) eqn:E8; [discriminate|]. apply N.ltb_ge in E8.
+  destruct (((choice =? 1) || (choice =? 2) || (choice =? 6)) && negb (ia5_ok (x :: d'))); [discriminate|].
+  inversion H; subst der. unfold general_name_dec. rewrite tlv_round by exact Hl.
+  unfold gn_tag, gn_constructed. cbn [andb].
+  assert (choice = 0 \/ choice = 1 \/ choice = 2 \/ choice = 3 \/ choice = 4 \/ choice = 5 \/ choice = 6 \/ choice = 7 \/ choice = 8) as Hc by lia.
+  destruct Hc as [->|[->|[->|[->|[->|[->|[->|[->| ->]]]]]]]]; reflexivity.
+Qed.
+
+(* the tree as found: otherName, x400Address, directoryName, ediPartyName are written with a tag the reader refuses *)
+Theorem general_name_roundtrip_refuted_legacy :
+  exists choice d der, general_name_enc false choice d = Some der /\ general_name_dec der = None.
+Proof. exists 4, [49; 0], (tlv 132 [49; 0]). split; vm_compute; reflexivity. Qed.
+
+Example general_name_legacy_all_constructed_choices_fail :
+  forallb (fun ch => match general_name_enc false ch [48; 0] with Some der => match general_name_dec der with None => true | _ => false end | None => false end) [0; 3; 4; 5] = true /\
+  forallb (fun ch => match general_name_enc false ch [97; 98] with Some der => match general_name_dec der with Some (c, d, []) => (c =? ch) | _ => false end | None => false end) [1; 2; 6; 7; 8] = true.
+Proof. split; vm_compute; reflexivity. Qed.
